@@ -40,6 +40,11 @@ match: contains("PAYROLL")
 category: Income
 subcategory: Job
 tags: income
+
+[Priced]
+match: any(r.amount == amount for r in prices)
+category: Priced
+subcategory: P
 '''
 RULES_SPECIFIC = RULES.replace('[Large]\nmatch: big', '[Large]\nmatch: big or contains("COFFEE ROASTERS WHOLESALE")')
 
@@ -71,7 +76,7 @@ def build(setup):
     sources = []
     for name in ('Card', 'Bank', 'Euro'):
         st = setup[name]
-        d = {None: ',', 'tab': '\t', ';': ';'}[st['delimiter']]
+        d = {None: ',', 'tab': '\t', ';': ';', '\t': '\t', '|': '|'}[st['delimiter']]
         lines = (['Date%sDescription%sAmount' % (d, d)] if st['has_header'] else [])
         for date, desc, amt in ROWS[name]:
             written = -amt if st['negate'] else amt      # the file holds the bank's sign convention; {-amount} flips it back
@@ -94,6 +99,11 @@ def build(setup):
         b.write('data/orders.csv', 'Date,Id,Item,Amount\n' + '\n'.join('01/01/2025,%s,%s,5.00' % o for o in ORDERS) + '\n')
         sources.append({'name': 'orders', 'file': 'data/orders.csv', 'format': '{date:%m/%d/%Y}, {id}, {item}, {amount}',
                         'columns': {'description': '{item}'}, 'supplemental': True})
+    if setup.get('supp_euro'):
+        # a second supplemental source with its OWN delimiter and decimal separator
+        b.write('data/prices.csv', 'Date;Sku;Amount\n01/01/2025;A1;12,25\n01/02/2025;B2;7,50\n')
+        sources.append({'name': 'prices', 'file': 'data/prices.csv', 'format': '{date:%m/%d/%Y}, {sku}, {amount}', 'delimiter': ';', 'decimal_separator': ',',
+                        'columns': {'description': '{sku}'}, 'supplemental': True})
     b.write('config/merchants.rules', RULES_SPECIFIC if setup.get('specific_rules') else RULES)
     s = {'year': 2025, 'data_sources': sources, 'merchants_file': 'config/merchants.rules', 'rule_mode': setup['rule_mode']}
     if setup['views']:
@@ -118,6 +128,8 @@ def classify(desc, amount, setup):
         cand.append(('Large', 'Large', 'L', [], (50, 1 if setup.get('specific_rules') else 0, 0, 25 if setup.get('specific_rules') else 0)))
     if 'PAYROLL' in desc:
         cand.append(('Pay', 'Income', 'Job', ['income'], (50, 1, 0, 7)))
+    if setup.get('supp_euro') and abs(amount - 12.25) < 1e-9:
+        cand.append(('Priced', 'Priced', 'P', [], (50, 0, 0, 0)))
     tags = sorted({t for c in cand for t in c[3]})
     if not cand:
         return None, tags
@@ -195,7 +207,7 @@ def main():
     base = base_setup()
     check(base, 'base')
     for src in ('Card', 'Bank', 'Euro'):
-        for key, vals in (('delimiter', [None, 'tab', ';']), ('has_header', [True, False]), ('decimal_separator', ['.', ',']), ('negate', [False, True]),
+        for key, vals in (('delimiter', [None, 'tab', ';', '\t', '|']), ('has_header', [True, False]), ('decimal_separator', ['.', ',']), ('negate', [False, True]),
                           ('present', [False]), ('readable', [False])):
             for v in vals:
                 if base[src][key] == v:
@@ -207,7 +219,7 @@ def main():
                 if key == 'decimal_separator' and v == ',' and s[src]['delimiter'] is None:
                     s[src]['delimiter'] = ';'
                 check(s, '%s.%s:%r' % (src, key, v))
-    for key, v in (('rule_mode', 'most_specific'), ('views', True), ('supplemental', False), ('specific_rules', True)):
+    for key, v in (('rule_mode', 'most_specific'), ('views', True), ('supplemental', False), ('specific_rules', True), ('supp_euro', True)):
         s = copy.deepcopy(base)
         s[key] = v
         check(s, '%s:%r' % (key, v))
